@@ -885,6 +885,23 @@ def rule_r9(prog, res):
     res.floor('R9', 'object reads in the dict deserialize entry points',
               nobj, 2)
 
+def rule_r10(prog, res):
+    res.rule('R10', 'the wire side gives an omitted member its declared '
+             'default whatever its truth value (NullServer reads '
+             'Attributes.default itself): _set_member_default tests None by '
+             'identity')
+    m = prog.module('spyne.model.complex')
+    f = m.functions.get('_set_member_default')
+    if f is None:
+        raise AnalysisError('_set_member_default', 'not found')
+    k = guardspec.presence_rule(res, 'R10', [f], ('def_val', 'def_fac'),
+                                'a declared default of 0, "" or False is not '
+                                'applied on the wire paths (the object keeps '
+                                'None) while NullServer passes it')
+    res.floor('R10', 'identity tests of the default in _set_member_default',
+              k, 1)
+
+
 def run(prog, res, tier):
     res.run_rule(rule_r1, prog, res)
     res.run_rule(rule_r2, prog, res)
@@ -895,6 +912,7 @@ def run(prog, res, tier):
     res.run_rule(rule_r7, prog, res)
     res.run_rule(rule_r8, prog, res)
     res.run_rule(rule_r9, prog, res)
+    res.run_rule(rule_r10, prog, res)
 
 
 _N = 'spyne/server/null.py'
@@ -902,6 +920,9 @@ _A = 'spyne/application.py'
 _D = 'spyne/descriptor.py'
 
 MUTANTS = [
+    Mutant('falsy-defaults-skipped', 'R10', 'fire', 'spyne/model/complex.py',
+           in_func('_set_member_default', "    if def_val is not None:\n",
+                   "    if def_val:\n"), 'truthiness'),
     Mutant('null-slots-start-as-none', 'R2', 'fire', 'spyne/server/null.py',
            in_func('_FunctionCall.__call__',
                    "ctx.in_object = [v.Attributes.default for v in _type_info"
